@@ -82,7 +82,10 @@ pub struct S4 {
     pub c: Probe,
     pub d: ProbeB,
 }
-/// a field that is itself a derived set
+/// a field that is itself a derived set (accepted by the derive because the set's own `update` has
+/// the member signature; compiled only with `--cfg verif_nested` so that a derive that rejects such
+/// members cannot take the other shapes' harnesses down with it)
+#[cfg(verif_nested)]
 #[derive(AgentSet)]
 pub struct Nested {
     x: Probe,
@@ -136,6 +139,7 @@ pub struct M3 {
     b: MProbeB,
     c: MProbe,
 }
+#[cfg(verif_nested)]
 #[derive(MarketAgentSet)]
 pub struct MNested {
     x: MProbeB,
@@ -332,12 +336,19 @@ pub fn c20_agentset_1_2_3() {
 
 #[kani::proof]
 #[kani::unwind(12)]
-pub fn c20_agentset_4_nested() {
+pub fn c20_agentset_4() {
     let mut env = mk_env();
     let mut rng = SymRng::new();
     let mut s = S4 { a: ProbeB { tag: 1 }, b: Probe { tag: 2 }, c: Probe { tag: 3 }, d: ProbeB { tag: 4 } };
     AgentSet::update(&mut s, &mut env, &mut rng);
     audit(&env, &rng, 4, &[true, false, false, true]);
+    vcover!(env.order(3).vol == 7, "cover.reached_end");
+}
+
+#[cfg(verif_nested)]
+#[kani::proof]
+#[kani::unwind(12)]
+pub fn c20_agentset_nested() {
     // a member that is itself a derived set: its members run in place, in order
     let mut env = mk_env();
     let mut rng = SymRng::new();
@@ -369,7 +380,7 @@ pub fn c20_agentset_8() {
 
 #[kani::proof]
 #[kani::unwind(12)]
-pub fn c20_marketagentset_1_3_nested() {
+pub fn c20_marketagentset_1_3() {
     let mut env = mk_menv();
     let mut rng = SymRng::new();
     let mut s = M1 { a: MProbe { tag: 1 } };
@@ -380,6 +391,13 @@ pub fn c20_marketagentset_1_3_nested() {
     let mut s = M3 { a: MProbe { tag: 1 }, b: MProbeB { tag: 2 }, c: MProbe { tag: 3 } };
     MarketAgentSet::update(&mut s, &mut env, &mut rng);
     maudit(&env, &rng, 3, &[false, true, false]);
+    vcover!(env.order((0, 2)).vol == 7, "cover.reached_end");
+}
+
+#[cfg(verif_nested)]
+#[kani::proof]
+#[kani::unwind(12)]
+pub fn c20_marketagentset_nested() {
     let mut env = mk_menv();
     let mut rng = SymRng::new();
     let mut s = MNested { x: MProbeB { tag: 1 }, inner: M3 { a: MProbe { tag: 2 }, b: MProbeB { tag: 3 }, c: MProbe { tag: 4 } }, y: MProbe { tag: 5 } };
@@ -491,3 +509,4 @@ pub fn c20_marketagentset_decorated_5_6_7() {
     maudit(&env, &rng, 7, &[false, false, true, false, true, true, false]);
     vcover!(env.order((0, 6)).vol == 7, "cover.reached_end");
 }
+
